@@ -245,7 +245,8 @@ pub fn run_profile_cfgs(
         return replay(args, path, &cfgs[0]);
     }
     install_quiet_panic_hook();
-    let mut report = Report::new(args, "exploration");
+    let level = if args.property == "C04" { "fault_enumeration" } else { "exploration" };
+    let mut report = Report::new(args, level);
     let nshards = threads() * 4;
     let tier = args.tier;
     let mut all = vec![];
